@@ -60,12 +60,39 @@ metadynamics {
   hillWidth 1.0
 }
 """
-CONFIGS = {"base": CONFIG, "grid": CONFIG_GRID}
+# a third one: the biases whose state formats were repaired in round 2 by the C03 slice (ALB, OPES)
+CONFIG_EXTRA = """colvar {
+  name d
+  lowerBoundary 0.0
+  upperBoundary 4.0
+  width 1.0
+  distanceZ {
+    main { atomNumbers 1 }
+    ref { dummyAtom (0,0,0) }
+    axis (0,0,1)
+  }
+}
+alb {
+  name al
+  colvars d
+  centers 1.0
+  updateFrequency 4
+}
+opes_metad {
+  name op
+  colvars d
+  barrier 10.0
+  newHillFrequency 1
+  gaussianSigma 0.5
+}
+"""
+CONFIGS = {"base": CONFIG, "grid": CONFIG_GRID, "extra": CONFIG_EXTRA}
+PRELUDE = {"extra": ["temperature 300"]}
 
 
 def scenario(sess, name=NAME, distinct=False):
     """sess = {"first": step number to start from, "pre": steps before the first save, "saves": ["text"|"binary", ...]}"""
-    L = ["unbuffered", "natoms 2", "new", "config EOF"] + CONFIGS[sess.get("config", "base")].strip("\n").split("\n") + ["EOF",
+    L = ["unbuffered", "natoms 2"] + PRELUDE.get(sess.get("config", "base"), []) + ["new", "config EOF"] + CONFIGS[sess.get("config", "base")].strip("\n").split("\n") + ["EOF",
          "show cv 0 atomf 0 energy 0 bias 0", "setstep %d" % sess["first"], "pos 1 0 0 1.25"]
     L += ["step"] * sess["pre"]
     for i, mode in enumerate(sess["saves"]):
@@ -80,7 +107,7 @@ def scenario(sess, name=NAME, distinct=False):
 
 
 def load_scenario(prefix, config="base", bias=False):
-    L = ["natoms 2", "new", "config EOF"] + CONFIGS[config].strip("\n").split("\n") + ["EOF"]
+    L = ["natoms 2"] + PRELUDE.get(config, []) + ["new", "config EOF"] + CONFIGS[config].strip("\n").split("\n") + ["EOF"]
     if bias:
         # colvarbias::read_state_prefix takes the file name itself when <prefix>.colvars.state is not there
         L += ["script cv bias m load %s" % prefix]
@@ -665,7 +692,7 @@ def run_crash(run, model, vsim, quick):
         refs, chunking, rel = reference(vsim, d, sess)
         n = len(rel)
         run.sample({"fault_free_trace_" + label: trace_str(rel), "state_sizes": [len(x) for x in refs]})
-        ks = list(range(n)) if (not quick or n <= 12) else sorted(r.sample(range(n), 12))
+        ks = list(range(n)) if not quick else sorted(r.sample(range(n), min(n, 7)))
         for k in ks:
             cases.append({"kind": "bias-writer-kill", "label": "%s:kill@%d" % (label, k), "sessions": [(sess, ["o"] * k + ["k0"])]})
             cases.append({"kind": "bias-writer-error", "label": "%s:err@%d" % (label, k), "sessions": [(sess, ["o"] * k + ["e"])]})
@@ -747,6 +774,10 @@ def tx_line(text, config="base"):
     if config == "base":
         cfg = "cv:%d b:%d.%d.%d.0,%d.%d.%d.1" % (wid("d"), wid("restraint"), wid("harmonic"), wid("h"),
                                                    wid("metadynamics"), wid("metadynamics"), wid("m"))
+    elif config == "extra":
+        # ALB: configuration only; OPES: key opes_metad_<name>, nine keyword/value pairs, the block hills { kernels }
+        cfg = "cv:%d b:%d.%d.%d.0,%d.%d.%d.0.k%d+w18+b%d" % (
+            wid("d"), wid("alb"), wid("alb"), wid("al"), wid("opes_metad"), wid("opes_metad"), wid("op"), wid("opes_metad_op"), wid("hills"))
     else:
         # 4 bins: histogram = key "grid" + 4 numbers; metadynamics = two grids (key, grid_parameters block, 4 numbers), then hills
         gp = wid("grid_parameters")
@@ -765,21 +796,28 @@ def tb_line(data):
 
 
 def run_damage_grid(run, vsim, d, quick, model):
-    """prefixes of a text state whose biases hold grids (histogram; metadynamics with grids): cut inside an object's
-    block must be an error (oracle), and the text-reader model with the grid layouts gives the same verdict (tie)"""
-    r = V.rng("C11damagegrid")
-    sess = {"first": 0, "pre": 6, "saves": ["text"], "config": "grid"}
+    for cfgname in ("grid", "extra"):
+        run_damage_config(run, vsim, d, quick, model, cfgname)
+
+
+def run_damage_config(run, vsim, d, quick, model, cfgname):
+    """prefixes of a text state whose biases hold grids (histogram; metadynamics with grids) resp. ALB and OPES data: a cut
+    inside an object's block must be an error (oracle), and the text-reader model with the layouts gives the same verdict
+    (tie); prefixes of the binary state: no crash, and an accepted proper prefix is reported (search only)"""
+    r = V.rng("C11damage" + cfgname)
+    sess = {"first": 0, "pre": 6, "saves": ["text", "binary"], "config": cfgname}
     refs, chunking, rel = reference(vsim, d, sess)
     text = refs[0]
+    binary = refs[1]
     n = len(text)
     p = os.path.join(d.path, "dmg.colvars.state")
     blocks = top_level_blocks(text.decode("latin1"))
     obj_blocks = [(a, b, kw) for a, b, kw in blocks if kw != "configuration"]
     open(p, "wb").write(text)
-    rc, ld = try_load_(vsim, d, "dmg.colvars.state", "grid")
+    rc, ld = try_load_(vsim, d, "dmg.colvars.state", cfgname)
     if rc != 0 or not ld or ld[0] != "ok":
         run.violation("load.valid-state-rejected", "a freshly written text state with grids does not load (rc=%d, %s)" % (rc, ld),
-                      {"kind": "load", "format": "text", "config": "grid", "cut": n})
+                      {"kind": "load", "format": "text", "config": cfgname, "cut": n})
         return
     if quick:
         offs = set(r.sample(range(n), min(n, 90)))
@@ -792,27 +830,47 @@ def run_damage_grid(run, vsim, d, quick, model):
     verdicts = []
     for cut in sorted(o for o in offs if 0 <= o < n):
         open(p, "wb").write(text[:cut])
-        rc, ld = try_load_(vsim, d, "dmg.colvars.state", "grid")
-        run.count("gridtext-prefix-%d" % cut, True)
-        run.dist("damage:text-prefix(grids)")
+        rc, ld = try_load_(vsim, d, "dmg.colvars.state", cfgname)
+        run.count("%s-text-prefix-%d" % (cfgname, cut), True)
+        run.dist("damage:text-prefix(%s)" % cfgname)
         if rc >= 128 or rc == 124 or rc < 0 or ld is None:
             run.violation("load.crash:text-prefix", "loading the first %d of %d bytes of a valid text state with grids kills or hangs the process (rc=%d)" % (cut, n, rc),
-                          {"kind": "load", "format": "text", "config": "grid", "cut": cut})
+                          {"kind": "load", "format": "text", "config": cfgname, "cut": cut})
             continue
         verdicts.append((cut, "ok" if ld[0] == "ok" else "err"))
         inside = [kw for a, b, kw in obj_blocks if a < cut <= b]
         if inside and ld[0] == "ok":
             run.violation("load.text-cut-inside-%s-block-accepted" % inside[0],
                           "a text state with grids cut at byte %d, inside the %s block, loads without any error" % (cut, inside[0]),
-                          {"kind": "load", "format": "text", "config": "grid", "cut": cut})
-    lines = [tx_line(text[:cut].decode("latin1"), "grid") for cut, _ in verdicts]
+                          {"kind": "load", "format": "text", "config": cfgname, "cut": cut})
+    lines = [tx_line(text[:cut].decode("latin1"), cfgname) for cut, _ in verdicts]
     rcm, mout, em = V.run_lines(model, lines, timeout=600)
     ndis = 0
     for (cut, verdict), mo in zip(verdicts, mout + ["<none>"] * (len(lines) - len(mout))):
         if mo.strip() != verdict:
             ndis += 1
-            run.mismatch("text-reader-tie", {"config": "grid", "cut": cut, "of": n, "tail": text[max(0, cut - 30):cut].decode("latin1")}, verdict, mo.strip())
-    run.cov["correspondence"]["damage_grid"] = {"text_prefixes": len(verdicts), "text_reader_model_disagreements": ndis}
+            run.mismatch("text-reader-tie", {"config": cfgname, "cut": cut, "of": n, "tail": text[max(0, cut - 30):cut].decode("latin1")}, verdict, mo.strip())
+    # binary prefixes of the same configuration: search only
+    nb = len(binary)
+    pat = struct.pack("<Q", 4) + b"hill"
+    hill_starts = [m.start() for m in re.finditer(re.escape(pat), binary)]
+    boffs = set(range(5, nb)) if not quick else (set(r.sample(range(5, nb), min(nb - 5, 60))) | set(range(max(5, nb - 16), nb)))
+    nacc = 0
+    for cut in sorted(boffs):
+        open(p, "wb").write(binary[:cut])
+        rc, ld = try_load_(vsim, d, "dmg.colvars.state", cfgname)
+        run.count("%s-binary-prefix-%d" % (cfgname, cut), True)
+        run.dist("damage:binary-prefix(%s)" % cfgname)
+        if rc >= 128 or rc == 124 or rc < 0 or ld is None:
+            run.violation("load.crash:binary-prefix", "loading the first %d of %d bytes of a valid binary state (%s configuration) kills or hangs the process (rc=%d)" % (cut, nb, cfgname, rc),
+                          {"kind": "load", "format": "binary", "config": cfgname, "cut": cut})
+        elif ld[0] == "ok":
+            nacc += 1
+            sig = "load.binary-prefix-accepted:at-hill-boundary" if cut in hill_starts else "load.binary-prefix-accepted:" + cfgname
+            run.violation(sig, "a binary state (%s configuration) cut at byte %d of %d loads without any error" % (cfgname, cut, nb),
+                          {"kind": "load", "format": "binary", "config": cfgname, "cut": cut})
+    run.cov["correspondence"]["damage_" + cfgname] = {"text_prefixes": len(verdicts), "text_reader_model_disagreements": ndis,
+                                                      "binary_prefixes": len(boffs), "binary_prefix_accepted": nacc}
     if os.path.exists(p):
         os.remove(p)
 
@@ -968,7 +1026,7 @@ def replay(rp, vsim, model):
         print("load a copy named backup_copy.colvars.state:", try_load_(vsim, d, "backup_copy.colvars.state"))
     else:
         cfgname = rp.get("config", "base")
-        sess = {"first": 0, "pre": 6, "saves": ["text", "binary"]} if cfgname == "base" else {"first": 0, "pre": 6, "saves": ["text"], "config": cfgname}
+        sess = {"first": 0, "pre": 6, "saves": ["text", "binary"]} if cfgname == "base" else {"first": 0, "pre": 6, "saves": ["text", "binary"], "config": cfgname}
         refs, chunking, rel = reference(vsim, d, sess)
         data = refs[0] if rp["format"] == "text" else refs[1]
         if "cut" in rp:
